@@ -19,7 +19,7 @@ RULE = ("Histories over {create(f2003), create(f2008), parse(v1..v5), parse(i1..
         "before; (b) every parse directly after create(s) gives the result (repr, str with BLOCK renumbering, or "
         "error text) of create(s); parse(x) in a fresh child; (c) so does a parse separated from its create only by "
         "failing parses. Non-trivial = a failing parse followed by a successful one, or both standards.")
-EXHAUSTIVE_RULE = "all histories create(s0) + (n-1) symbols over the 14-symbol alphabet, n <= 3 (quick) / 4 (thorough), + probes"
+EXHAUSTIVE_RULE = "all histories create(s0) + (n-1) symbols over the 16-symbol alphabet, n <= 3 (quick) / 4 (thorough), + probes"
 MIN_NONTRIVIAL = 0.3
 ASSUMPTIONS = ["successful parses may leave their symbol tables behind (by design); only failures and create() must not leak"]
 
@@ -31,6 +31,8 @@ SOURCES = {
     "v5": "subroutine s5\nuse m1, only: aa\nx = F(A(1)) + f((a(1)))\nX = f(a(1)) + 1.0E3\nend subroutine s5\n",
     "v6": "subroutine s6(total)\nprint *, 'total = ', total ! c\ncall f('a', i) ! it's\nwrite(6, '(a)') \"x\", y  ! \"q\nend subroutine s6\n",
     "v7": "subroutine s7\nx = erf(y) + gamma(z)\ni = shiftl(j, 2) + iabs(k) + shifta(j, 1)\nz = dsqrt(w) + amax1(a, b) + shiftr(j, 3)\nend subroutine s7\n",
+    "f1": "program p3\ninclude 'decl_c09.inc'\nx = cos(1.0)\nend program p3\n",
+    "v8": "program p4\ninclude 'decl_c09.inc'\ny = cos(2.0)\nend program p4\n",
     "i1": "program p3\nx = = 1\nend program p3\n",
     "i2": "subroutine s1\ninteger :: max\nif (a) then\ndo i = 1, 2\n@@@\nend do\nend if\nend subroutine s1\n",
     "i3": "program p3\ninteger :: tan\nx = sin(1, 2, 3)\nend program p3\n",
@@ -184,7 +186,19 @@ def _run_history(steps, sources, keep_comments=False):
         src = sources[s]
         before = str(env.SYMBOL_TABLES)
         try:
-            reader = env.FortranStringReader(src, ignore_comments=not keep_comments)
+            if s == "f1":
+                # the same text read through FortranFileReader with its default include path (the file's directory),
+                # with the include file lying next to it
+                import os
+                wd = os.path.join(env.VERIF_DIR, ".work", "c09_%d" % os.getpid(), "d1")
+                os.makedirs(wd, exist_ok=True)
+                with open(os.path.join(wd, "decl_c09.inc"), "w") as fh:
+                    fh.write(" real :: cos(10)\n")
+                with open(os.path.join(wd, "main_f1.f90"), "w") as fh:
+                    fh.write(src)
+                reader = env.FortranFileReader(os.path.join(wd, "main_f1.f90"), ignore_comments=not keep_comments)
+            else:
+                reader = env.FortranStringReader(src, ignore_comments=not keep_comments)
             tree = env.F03.Program(reader)
             out = {"op": s, "kind": "tree", "repr": rb(repr(tree)), "text": rb(str(tree))}
         except env.FortranSyntaxError as e:
@@ -216,6 +230,9 @@ def _in_child(steps, sources, keep_comments=False):
             with os.fdopen(wfd, "wb") as fh:
                 fh.write(data)
         finally:
+            import shutil
+            shutil.rmtree(os.path.join(os.path.dirname(os.path.dirname(os.path.dirname(os.path.abspath(__file__)))), ".work",
+                                       "c09_%d" % os.getpid()), ignore_errors=True)
             os._exit(0)
     os.close(wfd)
     with os.fdopen(rfd, "rb") as fh:
@@ -275,7 +292,7 @@ _fresh = {}
 def fresh(std, key, src, keep=False):
     k = (std, src, keep)
     if k not in _fresh:
-        o = _in_child(["c3" if std == "f2003" else "c8", "x"], {"x": src}, keep)
+        o = _in_child(["c3" if std == "f2003" else "c8", key], {key: src}, keep)     # same operation name: 'f1' reads a file
         _fresh[k] = o[1]
     return _fresh[k]
 
